@@ -307,6 +307,15 @@ func (e *Env) eval(x Expr) SVal {
 		for _, qv := range n.Vars {
 			s, ty := e.specSort(qv.Type)
 			name := "q!" + sanitize(qv.Name)
+			if strings.HasPrefix(string(s), "(Array ") {
+				// array-valued variable (an address, a public key): bind a variable of the key sort and use its unwrapping,
+				// so that indexing by it (where it is wrapped again) instantiates by plain E-matching on the key
+				e.c.wrapKey(mk(s, name)) // declares key!/unkey!
+				ks := e.c.keySort(s)
+				ne.vars[qv.Name] = SVal{T: app(s, "unkey!"+sanitize(string(s)), mk(ks, name)), Type: ty}
+				binds = append(binds, fmt.Sprintf("(%s %s)", name, ks))
+				continue
+			}
 			ne.vars[qv.Name] = SVal{T: mk(s, name), Type: ty}
 			binds = append(binds, fmt.Sprintf("(%s %s)", name, s))
 		}
@@ -712,12 +721,23 @@ func (e *Env) evalCall(n *ECall) SVal {
 			return e.errf("ghost %s expects %d keys", n.Fn, len(g.Keys))
 		}
 		t := e.heap(e.cur, c.ghostName(g, e))
-		for i := range n.Args {
-			t = tSelect(t, c.wrapKey(arg(i).T))
-		}
 		ge := &Env{c: c, vars: map[string]SVal{}, pkg: c.prog.typesPkg(g.Pkg), g: tTrue}
 		if ge.pkg == nil {
 			ge = e
+		}
+		for i := range n.Args {
+			a := arg(i)
+			// a concrete value given for an interface-typed key is the interface value holding it
+			if a.Type != nil {
+				if _, kt := ge.specSort(g.Keys[i].Type); kt != nil {
+					_, keyIsIface := kt.Underlying().(*types.Interface)
+					_, argIsIface := a.Type.Underlying().(*types.Interface)
+					if keyIsIface && !argIsIface && a.T.S != "0" {
+						a = SVal{T: c.boxIface(a.Type, a.T, e.cur, tTrue), Type: kt}
+					}
+				}
+			}
+			t = tSelect(t, c.wrapKey(a.T))
 		}
 		_, ty := ge.specSort(g.Ret)
 		return SVal{T: t, Type: ty}
